@@ -340,6 +340,15 @@ def check(ctx):
                   f'and every root element is parsed once under the right scope is not decided')
     elif ns_branch is None:
         run.violation('C05.siblings', pe.module.name, pe.qualname, 'namespace branch', 'namespaces are not descended into')
+    elif not [s for s in ns_branch if isinstance(s, ast.For)] and any(
+            isinstance(s, ast.Return) and isinstance(getattr(s, 'value', None), (ast.Tuple, ast.Call)) and
+            '.elements' in ast.unparse(s.value) for s in ns_branch):
+        run.error('C05.siblings', pe.module.name, disp.qualname, 'namespace traversal',
+                  f'the namespace branch of {disp.qualname} hands the members of the namespace back to its caller instead of '
+                  f'parsing them itself (work list / iterator stack): that every member and every root element is parsed once '
+                  f'under the right scope is not decided by this rule')
+        ns_elsewhere = ns_elsewhere or [disp]
+        ns_branch = None
     else:
         loops = [s for s in ns_branch if isinstance(s, ast.For)]
         ok = False
@@ -731,6 +740,10 @@ def _field_rule(ctx, fn: FuncInfo, call: ast.Call, cls: ClassInfo, fields: List[
         elif want == '@fqn':
             # parent_ns.fqn_member_name(<name>.value) where <name> is the parsed 'name'
             pn = next((a.arg for a in fn.params() if 'parent' in a.arg), None)
+            if isinstance(e, ast.Name):
+                d_ = ctx.cg.env(fn).single_def(e.id)       # through a write-once local
+                if d_ is not None:
+                    e = d_
             ok = isinstance(e, ast.Call) and isinstance(e.func, ast.Attribute) and e.func.attr == 'fqn_member_name' and \
                 ast.unparse(e.func.value) == pn and len(e.args) == 1 and ast.unparse(e.args[0]).endswith('.value') and \
                 keys_of(e.args[0]) == ['name'] and 'name' in given and \
